@@ -30,7 +30,7 @@ ASSUMPTIONS = [
     "masked (documented) differences: model, set-point resolution, supported power controls (away / sleep), intelligent auto fan speed, bypass reporting, per-mode limits (made equal by construction), zone control-method side effect of set-point / damper calls, zone supported power states (AT4 zones advertise turbo support), target temperature of sensorless zones",
     "histories use values expressible in both protocols only",
 ]
-PROBES = ["c19.named_zone_not_yet_reported", "c19.write_fault_on_both", "c19.api_call_compared", "c19.reject_compared", "c19.snapshot_compared", "c19.auto_heat_cool", "c19.multi_ac"]
+PROBES = ["c19.single_ac_unowned_zone", "c19.named_zone_not_yet_reported", "c19.write_fault_on_both", "c19.api_call_compared", "c19.reject_compared", "c19.snapshot_compared", "c19.auto_heat_cool", "c19.multi_ac"]
 MASK_AC = {"target_temperature_resolution", "supported_power_controls"}
 MASK_ZONE = {"target_temperature_resolution", "supported_power_states"}
 
@@ -83,6 +83,12 @@ def generate(rng, index: int, tier: str) -> dict:
     bounds = [0] + cuts + [n_zones]
     acs4, acs5 = [], []
     fmt = rng.choice(["bitmap", "range"]) if n_acs > 1 else rng.choice(["bitmap", "range", "single"])
+    unowned = 0
+    if n_acs == 1 and n_zones > 1 and fmt == "bitmap" and rng.random() < 0.35:
+        # the only AC does not own every named zone (AirTouch 4: zone bitmap without the last zones; AirTouch 5: a zone count
+        # below the number of names): what the AC is shown to own is the same on both generations
+        unowned = rng.randint(1, n_zones - 1)
+        bounds = [0, n_zones - unowned]
     # AC numbers need not start at 0 nor be contiguous
     ac_ids = list(range(n_acs)) if rng.random() < 0.6 else sorted(rng.sample(range(4), n_acs))
     for i in range(n_acs):
@@ -196,7 +202,7 @@ def generate(rng, index: int, tier: str) -> dict:
         tl5[:] = [x for x in tl5 if not _hits(x)]
     for tl in (tl4, tl5):
         tl.sort(key=lambda x: x["at"])
-    return {"gen": 45, "unreported_until": t_rep_v, "s4": mk(4, inst4, tl4), "s5": mk(5, inst5, tl5), "timeline": tl5, "knobs": {}, "write_faults": info_faults, "unreported_zone": unrep}
+    return {"gen": 45, "unreported_until": t_rep_v, "s4": mk(4, inst4, tl4), "s5": mk(5, inst5, tl5), "timeline": tl5, "knobs": {}, "write_faults": info_faults, "unreported_zone": unrep, "unowned_zones": unowned}
 
 
 def _abstract_cmd(gen: int, r: dict):
@@ -288,6 +294,8 @@ def execute(sc: dict) -> dict:
         probes["c19.write_fault_on_both"] = 1
     if sc.get("unreported_zone") is not None:
         probes["c19.named_zone_not_yet_reported"] = 1
+    if sc.get("unowned_zones"):
+        probes["c19.single_ac_unowned_zone"] = 1
     # An AT4 timer command that leaves BOTH timers of the named AC enabled at 00:00 is an all-zero record, which the
     # reference console reads as "AC not named" (spec/undocumented_messages.md): such a command is not expressible in the
     # AT4 wire format, so the timers of that AC leave the comparison from that call on (the command's meaning is still compared).
